@@ -336,17 +336,71 @@ def run_spec(spec):
         out.update(result="inconclusive", why="vacuous")
     if out["result"] == "holds":
         U.validate_native(E, paths, LV2, conc, out, nmax=1)
+    if out["result"] == "holds" and names:
+        # the same instantiation with the values handed over as other Python / NumPy types (native runs)
+        nl = len(lv.vars)
+        leaf0 = [(0.5 + 0.75 * i if k == "float" else 2 + i) for i, (_, k, _) in enumerate(lv.vars)]
+        npar = len(pvars)
+        for kind in VALUE_KINDS[1:]:
+            if kind.startswith("arrays") and not any(isinstance(v, list) for v in vals.values()):
+                continue
+            # (integers small enough that no product of them leaves 64 bits in whatever order SymPy multiplies them)
+            for pv in ([3 + 2 * i for i in range(npar)], [10003 + 2 * i for i in range(npar)]) if kind in ("python int", "numpy int64", "arrays: int64 dtype") else (
+                    [0.5 + 0.25 * i for i in range(npar)],):
+                rr = concrete_check(spec, leaf0, pv, w, kind=kind)
+                out["validated"] = out.get("validated", 0) + 1
+                if isinstance(rr, dict):
+                    rr["symbolic_what"] = "values passed as %s: %s" % (kind, rr["what"])
+                    rr["values"] = list(rr["values"]) + [kind]
+                    out.update(result="violation", cex=rr)
+                    return out
     return out
 
 
-def concrete_check(spec, leafvals, parvals, w=None):
+VALUE_KINDS = ["python float", "python int", "numpy int64", "numpy float32", "numpy float64",
+               "arrays: fortran order", "arrays: transposed view", "arrays: reversed view", "arrays: tuples", "arrays: int64 dtype", "arrays: float32 dtype"]
+
+
+def _as_kind(vals, flat, kind):
+    """the same parameter values handed over as other Python / NumPy types (what the caller may pass is not only floats and lists)"""
+    import fractions
+    conv = {"python int": int, "numpy int64": np.int64, "numpy float32": np.float32, "numpy float64": np.float64,
+            "fraction": lambda x: fractions.Fraction(x).limit_denominator(64)}.get(kind)
+    out = {}
+    for n, v in vals.items():
+        if isinstance(v, list):
+            a = np.array(v)
+            if kind == "arrays: fortran order":
+                v = np.asfortranarray(a)
+            elif kind == "arrays: transposed view":
+                v = a.T.copy().T
+            elif kind == "arrays: reversed view":
+                v = a[::-1, ::-1].copy()[::-1, ::-1]
+            elif kind == "arrays: tuples":
+                v = tuple(tuple(r) for r in v)
+            elif kind == "arrays: int64 dtype":
+                v = a.astype(np.int64)
+            elif kind == "arrays: float32 dtype":
+                v = a.astype(np.float32)
+            elif conv and kind.startswith("numpy"):
+                v = [[conv(x) for x in r] for r in v]
+        elif conv:
+            v = conv(v)
+        out[n] = v
+    return out
+
+
+def concrete_check(spec, leafvals, parvals, w=None, kind="python float"):
     w = w or _script.plain_env()
     bb = w["bb"]
     lv = skel.Leaves(values=leafvals)
     g = gen(spec, lv)
     text = g["text"]
-    vals, flat = build_values(text, False, [float(x) for x in parvals])
+    integral = kind in ("python int", "numpy int64", "arrays: int64 dtype")
+    vals, flat = build_values(text, False, [(int(x) if integral else float(x)) for x in parvals])
     toks = w["lang"].real_tokens_pos(text)
+    T.PyAlg.overflow = False
+    T.PyAlg.fscale = 0.0
     try:
         rt = RI.Interp(toks, T.PyAlg, lv.leaf, False, params=None).run()
         it = RI.Interp(toks, T.PyAlg, lv.leaf, False, params=flat)
@@ -355,9 +409,9 @@ def concrete_check(spec, leafvals, parvals, w=None):
         return "skip"
     except Exception as e:  # noqa
         raise common.HarnessError("reference interpreter failed on %r: %r" % (text, e))
-    if not it.dom.ok:
-        return "skip"
-    base = {"text": text, "values": list(leafvals) + list(parvals), "call": repr(vals)}
+    if not it.dom.ok or T.PyAlg.overflow:
+        return "skip"       # (a division by zero, a non-finite value or an integer beyond 64 bits: outside the domain)
+    base = {"text": text, "values": list(leafvals) + list(parvals), "call": repr(vals), "kind": kind}
     import blackbird.auxiliary as aux
     aux._VAR.clear()
     aux._PARAMS.clear()
@@ -373,13 +427,16 @@ def concrete_check(spec, leafvals, parvals, w=None):
                 return dict(base, what="is_template()", observed=repr(Tm.is_template()), expected=repr(bool(want)))
             if not vals:
                 return None
-            I = Tm(**vals)
+            I = Tm(**(_as_kind(vals, flat, kind) if kind != "python float" else vals))
     except Exception as e:  # noqa
         return dict(base, what="raises %s" % type(e).__name__, observed="%s: %s" % (type(e).__name__, e), expected="a program")
     finally:
         aux._VAR.clear()
         aux._PARAMS.clear()
     c = _cmp.Cmp(False, it.symfactory, strict_kinds=False)
+    if "float32" in kind:
+        c.rel = 1e-5                 # single-precision values give single-precision results
+    c.int_stays_int = integral       # integer values in integer-preserving expressions give integers (as the substituted script does)
     c.program(I, ri, ("ops", "vars"))
     if set(I.parameters):
         c.miss("instance", "still has free parameters %r" % sorted(I.parameters))
@@ -411,7 +468,10 @@ def replay(spec, allvals):
     lv = skel.Leaves()
     gen(spec, lv)
     n = len(lv.vars)
-    r = concrete_check(spec, allvals[:n], allvals[n:])
+    kind = "python float"
+    if allvals and isinstance(allvals[-1], str):
+        kind, allvals = allvals[-1], allvals[:-1]
+    r = concrete_check(spec, allvals[:n], allvals[n:], kind=kind)
     if r in (None, "skip"):
         print("property holds for these values" if r is None else "outside the domain")
         return 0
